@@ -49,3 +49,31 @@ Print Assumptions C02_removals_exact.
 Example C02_valid_history_example :
   uvalid_history (@s_init Z 3) [UAdd 1 0 7%Z false; UAdd 2 2 5%Z false; UAdd 0 1 9%Z false; URemoveVertex 2; UResize 5; UAdd 4 1 1%Z false; URemove 1 4; USelfLoops] = true.
 Proof. vm_compute. reflexivity. Qed.
+
+(* ---- derived observers of the undirected class (udegree: list length, a self-loop counted twice iff asked; ucell: 1 for a neighbour, 2 on the
+   diagonal iff asked), and ALL observers at once: the whole observation vector of the model equals the one computed from the unordered-pair spec ---- *)
+From Coq Require Import List Arith ZArith.
+From BG Require Import Base DirectedModel DirectedProofs DirectedSpec DirectedRefine DirectedObs UndirectedModel UndirectedProofs UndirectedSpec UndirectedRefine UndirectedObs MultiModel WeightedModel MultiSpec Totals MultiRefine WeightedRefine UTotals UMultiRefine UWeightedRefine Instances UndirectedUsers MultiUsers WeightedUsers ObserveSpec ObserveSpecLabelled.
+Import ListNotations.
+Local Close Scope Z_scope.
+Theorem C02_all_observers :
+  forall (L : Type) (leqb : L -> L -> bool) (ldef : L) (lcode : L -> Z) (lalpha : list L) (hs : bool) (n : nat) (ops : list (@uop L)),
+        uvalid_history (s_init n) ops = true ->
+        exists g : (@dgraph L),
+          urun hs repaired (init n) ops = (g, Done) /\ u_observe leqb ldef lcode lalpha hs repaired g = sobserve_u leqb ldef hs lcode lalpha (uspec_run (s_init n) ops).
+Proof. intros L. exact (@ObserveSpecLabelled.u_observe_history L). Qed.
+Print Assumptions C02_all_observers.
+Theorem C02_degree :
+  forall (L : Type) (has_store : bool) (g : (@dgraph L)) (v : nat) (twice : bool), InvU has_store g -> v < size g -> u_degree g v twice = Val (udegree g twice v).
+Proof. intros L. exact (@UndirectedUsers.u_degree_val L). Qed.
+Print Assumptions C02_degree.
+Theorem C02_adjacency_matrix :
+  forall (L : Type) (has_store : bool) (g : (@dgraph L)) (twice : bool),
+        InvU has_store g -> u_adjacency_matrix g twice = Val (map (fun i : nat => map (fun j : nat => ucell g twice i j) (seq 0 (size g))) (seq 0 (size g))).
+Proof. intros L. exact (@UndirectedUsers.u_adjacency_matrix_val L). Qed.
+Print Assumptions C02_adjacency_matrix.
+Theorem C02_adjacency_matrix_symmetric :
+  forall (L : Type) (has_store : bool) (g : (@dgraph L)) (twice : bool) (M : list (list nat)),
+        InvU has_store g -> u_adjacency_matrix g twice = Val M -> forall i j : nat, nth j (nth i M []) 0 = nth i (nth j M []) 0.
+Proof. intros L. exact (@UndirectedUsers.u_adjacency_matrix_symmetric L). Qed.
+Print Assumptions C02_adjacency_matrix_symmetric.
